@@ -114,6 +114,7 @@ fn check_case(c: &HistCase, st: &mut Stats, ss: &mut ShardState) {
     st.add("skipped_undefined::first_fire_all_exactness_not_judged", obs.undefined_exactness);
     st.add("first_fire_all_exact_set_checked", obs.exactness_checked);
     st.add("later_fire_alls_held_to_upper_bounds_only", obs.later_fire_alls_upper_bound_only);
+    st.add("later_fire_alls_firings_owed_(unfired_since_reset,_fact_new_since_previous_fire_all)", obs.later_fire_alls_owed_firings);
     st.add("rules_correctly_silent_in_first_fire_all", obs.rules_not_fired_when_unsatisfied);
     st.add("view_comparisons(4_views_x_every_issued_handle)", obs.view_checks);
     st.add("handles_issued", obs.handles_issued);
@@ -169,7 +170,7 @@ impl Check for C06 {
         ID
     }
     fn rule(&self) -> String {
-        "Programs: 1-4 single-type rules written as GRL text (3 fact types Person/Order/Sensor with int fields age,qty, string field tag, bool field vip; leaves int-field vs int-literal with == != < <= > >=, string-field vs string-literal with == != contains startsWith endsWith, bool-field == / != bool; && || ! to depth 3; salience from {0,0,5,5,10,20}; no-loop on/off; 4 text layouts), parsed by the real GRLParser, read back structurally (mismatch => skipped and counted), converted by GrlReteLoader::verif_convert_rule, actions wrapped by the recorder. Three modes: Log-only + all no-loop (clause c: first fire_all fires exactly the satisfied rules once; later fire_alls upper bounds only), modifying actions (`Type.field = literal;`, `retract($Type);`, `Retract(\"Type\");` incl. a constructed pair where a salience-10 rule falsifies or retracts the fact a lower-salience rule matched), no-loop mixed. Histories: 1-12 ops insert/update/retract/fire_all/reset over <=6 facts of <=3 types, sampled at random; plus EXHAUSTIVE enumeration of every history of the stated length over a 12-symbol alphabet (insert/update of 2 facts x age in {3,8}, retract of each, fire_all, reset) for two fixed 2-rule programs (an insert of a fact label that is already inserted and an update/retract of a label not yet inserted are skipped, so the enumeration contains every shorter effective history as well). Every firing is judged by the three-valued reference evaluator on the matched fact's fields as they appear in the flattened copy handed to the action (Undefined => counted, not judged); the four working-memory views are compared with the shadow for every handle ever issued after every op. A case is non-trivial when at least one rule fired and in at least one fire_all some rule did not fire; distinct by the whole case.".into()
+        "Programs: 1-4 single-type rules written as GRL text (3 fact types Person/Order/Sensor with int fields age,qty, string field tag, bool field vip; leaves int-field vs int-literal with == != < <= > >=, string-field vs string-literal with == != contains startsWith endsWith, bool-field == / != bool; && || ! to depth 3; salience from {0,0,5,5,10,20}; no-loop on/off; 4 text layouts), parsed by the real GRLParser, read back structurally (mismatch => skipped and counted), converted by GrlReteLoader::verif_convert_rule, actions wrapped by the recorder. Three modes: Log-only + all no-loop (clause c: first fire_all fires exactly the satisfied rules once; later fire_alls: upper bounds, plus a firing is owed by every rule that has not fired since the last reset and is satisfied by a live fact inserted or updated since the previous fire_all), modifying actions (`Type.field = literal;`, `retract($Type);`, `Retract(\"Type\");` incl. a constructed pair where a salience-10 rule falsifies or retracts the fact a lower-salience rule matched), no-loop mixed. Histories: 1-12 ops insert/update/retract/fire_all/reset over <=6 facts of <=3 types, sampled at random; plus EXHAUSTIVE enumeration of every history of the stated length over a 12-symbol alphabet (insert/update of 2 facts x age in {3,8}, retract of each, fire_all, reset) for two fixed 2-rule programs (an insert of a fact label that is already inserted and an update/retract of a label not yet inserted are skipped, so the enumeration contains every shorter effective history as well). Every firing is judged by the three-valued reference evaluator on the matched fact's fields as they appear in the flattened copy handed to the action (Undefined => counted, not judged); the four working-memory views are compared with the shadow for every handle ever issued after every op. A case is non-trivial when at least one rule fired and in at least one fire_all some rule did not fire; distinct by the whole case.".into()
     }
     fn assumptions(&self) -> Vec<String> {
         vec![
